@@ -208,6 +208,13 @@ def judge(case, ctx):
 
     # ---- expectations
     if e.kind == 'scalar':
+        if e.name == 'stats':
+            exp = dict(count=0, errors=0, sum=0, min=None, max=None, mean=0, pvariance=0, pstdev=0.0)
+            obs = got._asdict() if hasattr(got, '_asdict') else got
+            ctx.seen('explicit-expectation-used')
+            if obs != exp or any(type(obs[k]) is not type(v) for k, v in exp.items()):
+                return {'kind': 'zero-row-result-differs', 'expected': exp, 'observed': repr(got)}
+            return None
         if e.name in SCALARS and not four:
             ctx.seen('explicit-expectation-used')
             exp = SCALARS[e.name]
